@@ -17,6 +17,7 @@ import (
 	"sort"
 	"strings"
 	"sync"
+	"sync/atomic"
 
 	"google.golang.org/protobuf/proto"
 	"google.golang.org/protobuf/types/known/structpb"
@@ -265,6 +266,8 @@ type worker struct {
 	beta [3]*xrk.FnServer
 	mu   sync.Mutex
 	cur  *tcase
+	// fatalLast makes the last step of the pipeline add a fatal result to its response
+	fatalLast atomic.Bool
 }
 
 func newWorker(c *kit.Ctx) *worker {
@@ -275,7 +278,11 @@ func newWorker(c *kit.Ctx) *worker {
 			w.mu.Lock()
 			t := w.cur
 			w.mu.Unlock()
-			return evalProgram(t.Steps[f].Prog, f, req), nil
+			rsp := evalProgram(t.Steps[f].Prog, f, req)
+			if w.fatalLast.Load() && f == len(t.Steps)-1 {
+				rsp.Results = append(rsp.Results, &fnv1.Result{Severity: fnv1.Severity_SEVERITY_FATAL, Message: "scripted fatal result of the last step"})
+			}
+			return rsp, nil
 		}
 		for k := 0; k < 3; k++ {
 			w.v1[f][k] = xrk.NewFnServer(false)
@@ -537,6 +544,7 @@ func (w *worker) run(i int, name string) {
 		}
 	})
 
+	var lastExp *expectation
 	for rec := 0; rec < 4; rec++ {
 		if rec == 2 {
 			// the cluster changes between reconciles: a composed resource gets a connection secret
@@ -588,6 +596,10 @@ func (w *worker) run(i int, name string) {
 			return
 		}
 		exp := reference(&t, snap)
+		lastExp = nil
+		if rerr == nil {
+			lastExp = &exp
+		}
 		wit := func(extra map[string]any) any {
 			m := map[string]any{"case": t, "reconcile": rec, "reconcile_error": fmt.Sprint(rerr)}
 			for k, v := range extra {
@@ -689,6 +701,31 @@ func (w *worker) run(i int, name string) {
 			}
 		}
 	}
+	// a later step ends the pipeline with a fatal result: the conditions the earlier responses (and
+	// that response) asserted are still surfaced with the status they asserted - none is dropped
+	// or degraded to Unknown
+	if lastExp != nil && len(lastExp.conds) > 0 {
+		w.fatalLast.Store(true)
+		w.drain()
+		_, _, _ = env.Reconcile("xr1")
+		w.fatalLast.Store(false)
+		xr := world.GetObj(xrKey)
+		conds, _, _ := unstructured.NestedSlice(xr, "status", "conditions")
+		for typ := range lastExp.conds {
+			st := "<absent>"
+			for _, cd := range conds {
+				if m, _ := cd.(map[string]any); m["type"] == typ {
+					st = fmt.Sprint(m["status"])
+				}
+			}
+			if st != "True" {
+				fail("condition-dropped-by-fatal-tail", fmt.Sprintf("custom condition %s was asserted True by a step of the reconcile whose last step returned a fatal result, the XR shows status %s: %v", typ, st, conds), t)
+			}
+		}
+		c.Count("fatal_tail_reconciles", 1)
+		// back to a healthy pipeline
+		_, _, _ = env.Reconcile("xr1")
+	}
 	// uninstalling a function closes its connection
 	if len(t.Steps) > 0 {
 		fn := &unstructured.Unstructured{Object: world.GetObj(sim.Key{Group: "pkg.crossplane.io", Kind: "Function", Name: "fn-0"})}
@@ -697,6 +734,14 @@ func (w *worker) run(i int, name string) {
 		if err != nil || n != 1 {
 			fail("connection-not-closed-after-uninstall", fmt.Sprintf("GarbageCollectConnectionsNow closed %d connections (err %v) after fn-0 was uninstalled, want 1", n, err), t)
 		}
+		// ... and installing it again (same name, same endpoint) makes it reachable again
+		world.MustSeed("pkg", map[string]any{"apiVersion": "pkg.crossplane.io/v1", "kind": "Function", "metadata": map[string]any{"name": "fn-0"}, "spec": map[string]any{"package": "xpkg.example.org/fn/fn-0:v1"}})
+		w.drain()
+		_, rerr, _ := env.Reconcile("xr1")
+		if got := len(activeSrv[0].Take()); got == 0 {
+			fail("function-unreachable-after-reinstall", fmt.Sprintf("after fn-0 was uninstalled, its connection collected and fn-0 installed again, a reconcile sent it no request (err %v)", rerr), t)
+		}
+		c.Count("reinstall_reconciles", 1)
 	}
 	changed := false
 	rounds := false
